@@ -14,7 +14,7 @@ import random
 
 # Typing imports
 from typing import Dict, Iterator, List, NamedTuple, Optional, Tuple, Union, overload
-from urllib.parse import parse_qsl, urlparse
+from urllib.parse import parse_qsl, urlsplit
 
 # Pycryptodome imports
 try:
@@ -237,7 +237,8 @@ def parse_raw_http(data: bytes) -> Union[HttpRequest, HttpResponse]:
 
     # sanitize uri bytes for `urlparse()` to avoid possible decode errors
     uri = uri.decode("ascii", errors="ignore").encode()
-    result = urlparse(uri)
+    # urlsplit instead of urlparse: a ";" in the path is part of the path, not the start of URL parameters
+    result = urlsplit(uri)
     uri = result.path
     params = dict(parse_qsl(result.query))
     return HttpRequest(method=method, body=body, headers=headers, uri=uri, params=params)
